@@ -182,7 +182,7 @@ def isDecimal (n : Name) : Bool :=
 def str (s : String) : List Byte := s.toUTF8.toList
 
 /-- #NEXUS BEGIN DATA CHARACTERS TAXA TAXLABELS TREES TREE DIMENSIONS NTAX NCHAR FORMAT DATATYPE MISSING MATCHCHAR GAP
-MATRIX END (byte literals: kernel-evaluable) -/
+MATRIX END ENDBLOCK (byte literals: kernel-evaluable) -/
 def nexusKeywords : List Name := [
   [35, 78, 69, 88, 85, 83],
   [66, 69, 71, 73, 78],
@@ -201,7 +201,8 @@ def nexusKeywords : List Name := [
   [77, 65, 84, 67, 72, 67, 72, 65, 82],
   [71, 65, 80],
   [77, 65, 84, 82, 73, 88],
-  [69, 78, 68]]
+  [69, 78, 68],
+  [69, 78, 68, 66, 76, 79, 67, 75]]
 
 /-- FASTA: a name is one line (no line break, no leading blank: guaranteed by `isPrintable`) that
 does not start with the record delimiter `>`. -/
